@@ -118,7 +118,16 @@ def exportable_member(rng, depth, bit=False):
     if r == 23: return A.Hex(A.Alias("Int16ub"))
     if r == 24: return A.NullTerminated(A.GreedyBytes, term=b"\xff", include=rng.random() < 0.3, consume=rng.random() < 0.7)
     if r == 25: return A.FixedSized(rng.choice([2, 4]), A.GreedyBytes)
-    if r == 26 and depth > 0: return A.Struct(*[A.Renamed(n, exportable_member(rng, depth - 1)) for n in "pq"[:rng.choice([1, 2])]])
+    if r == 26 and depth > 0:
+        # members of a nested type are compared through the enclosing member; kinds with a listed finding stay at the top level, where
+        # a discrepancy is attributed to the member itself
+        def clean():
+            while True:
+                m = exportable_member(rng, depth - 1)
+                ks = {n["k"] for n in A.walk(m)}
+                if not (ks & {"Enum", "FlagsEnum", "Padded", "NullTerminated", "PaddedString", "IfThenElse"}) and not any(n["k"] == "Prefixed" and n.get("incl") for n in A.walk(m)):
+                    return m
+        return A.Struct(*[A.Renamed(n, clean()) for n in "pq"[:rng.choice([1, 2])]])
     if r == 27: return A.BitStruct(*bit_members(rng))
     if r == 28: return A.RepeatUntil(A.Bin("==", A.Obj, A.C(0)), A.Alias("Byte"))
     return A.Alias("Byte")
